@@ -23,7 +23,10 @@ import time
 from .common import LEAN, REPO, ROOT, sx, write_if_changed
 
 RULE = (
-	'the CI command once over the whole tree; seeded edits: files sampled by VERIF_SEED (thorough: all files), for every catalogue '
+	'the CI command once over the whole tree; seeded edits: (a) context-stratified - every applicable site of every file of the tree is '
+	'classified by its neighbourhood (previous line ends in a backslash / is a directive / an include / a comment / empty, inside a macro, a '
+	'region, a block comment, an indented block, first / last lines ...) and every (family x context class) that exists in the tree gets at '
+	'least one case (the few sites below a backslash-terminated line: all of them, for the blank-line families); (b) files sampled by VERIF_SEED (thorough: all files), for every catalogue '
 	'family the applicable lines of the file are computed by an independent predicate and up to N of them sampled (quick: ~2000 '
 	'edits in total, thorough: up to 20 lines per family and file); every edit is linted alone, after a different dirty file, and '
 	'undone. Regex correspondence: every table regex x sampled tree lines x seeded witness lines. A case is distinct by '
@@ -1021,6 +1024,171 @@ def file_sites(args):
 	return relpath, out
 
 
+
+# context classes of a site (a line index): features of the line and of its neighbourhood
+CONTEXT_LABELS = (
+	'prev:backslash', 'prev:directive', 'prev:include', 'prev:comment', 'prev:empty', 'prev:open-brace', 'prev:close-brace',
+	'self:directive', 'self:comment', 'self:empty', 'self:backslash', 'next:empty', 'next:directive', 'next:close-brace',
+	'in:macro', 'in:region', 'in:block-comment', 'in:indented-block', 'pos:licence', 'pos:first-lines', 'pos:last-lines', 'plain')
+# for these families the few sites of these classes are always all exercised
+ALWAYS_ALL = {'blank-lines:consecutive': ('prev:backslash', 'in:macro'), 'whitespace:tabs-in-empty-line': ('prev:backslash',)}
+
+
+def line_contexts(lines):
+	"""For every line index the set of context classes it belongs to."""
+	count = len(lines) - 1 if lines and not lines[-1] else len(lines)
+	out = []
+	in_macro = False
+	in_comment = False
+	region_depth = 0
+	for index in range(len(lines)):
+		line = lines[index]
+		previous = lines[index - 1] if index else None
+		following = lines[index + 1] if index + 1 < count else None
+		stripped = line.strip()
+		labels = set()
+		if previous is not None:
+			before = previous.strip()
+			if previous.endswith('\\'):
+				labels.add('prev:backslash')
+			if before.startswith('#'):
+				labels.add('prev:include' if before.startswith('#include') else 'prev:directive')
+			if before.startswith(('//', '/*', '*')):
+				labels.add('prev:comment')
+			if not before:
+				labels.add('prev:empty')
+			if before.endswith('{'):
+				labels.add('prev:open-brace')
+			if before.startswith('}'):
+				labels.add('prev:close-brace')
+		if stripped.startswith('#'):
+			labels.add('self:directive')
+		if stripped.startswith(('//', '/*', '*')):
+			labels.add('self:comment')
+		if not stripped:
+			labels.add('self:empty')
+		if line.endswith('\\'):
+			labels.add('self:backslash')
+		if following is not None:
+			after = following.strip()
+			if not after:
+				labels.add('next:empty')
+			if after.startswith('#'):
+				labels.add('next:directive')
+			if after.startswith('}'):
+				labels.add('next:close-brace')
+		if in_macro:
+			labels.add('in:macro')
+		if region_depth > 0:
+			labels.add('in:region')
+		if in_comment:
+			labels.add('in:block-comment')
+		if line.startswith('\t'):
+			labels.add('in:indented-block')
+		if index < LICENSE_LINES:
+			labels.add('pos:licence')
+		elif index < LICENSE_LINES + 5:
+			labels.add('pos:first-lines')
+		if index >= count - 4:
+			labels.add('pos:last-lines')
+		if not labels:
+			labels.add('plain')
+		out.append(labels)
+		# state for the next line
+		in_macro = line.endswith('\\') and (in_macro or stripped.startswith('#')) and not _is_include(line)
+		if '/*' in line and '*/' not in line.split('/*')[-1]:
+			in_comment = True
+		elif in_comment and '*/' in line:
+			in_comment = False
+		if re.search(r'// region\b', line):
+			region_depth += 1
+		elif re.search(r'// endregion\b', line):
+			region_depth = max(0, region_depth - 1)
+	return out
+
+
+def stratification_groups(catalogue):
+	"""Families that share their site predicate are stratified together: [(group name, [family indexes])]."""
+	groups = []
+	typo_inline = [index for index, family in enumerate(catalogue) if isinstance(family, RegexWitness) and 'TypoChecker' == family.entry['owner'] and not family.new_line]
+	typo_line = [index for index, family in enumerate(catalogue) if isinstance(family, RegexWitness) and 'TypoChecker' == family.entry['owner'] and family.new_line]
+	for index, family in enumerate(catalogue):
+		if not isinstance(family, RegexWitness):
+			groups.append((family.name, [index]))
+	if typo_inline:
+		groups.append(('regex:TypoChecker:witness-inside-a-line', typo_inline))
+	if typo_line:
+		groups.append(('regex:TypoChecker:witness-as-a-new-line', typo_line))
+	return groups
+
+
+def context_sites(relpath):
+	"""Worker: for every stratification group the sites of this file per context class: {group: {label: (count, [<= 2 sites])}}
+	(all sites for the ALWAYS_ALL classes)."""
+	if _W.get('catalogue') is None:
+		entries, _, constants = extract_regexes()
+		_W['catalogue'] = build_catalogue(entries, constants)
+	if _W.get('groups') is None:
+		_W['groups'] = stratification_groups(_W['catalogue'])
+	lines = _original(relpath).split('\n')
+	contexts = None
+	out = {}
+	for name, members in _W['groups']:
+		sites = _W['catalogue'][members[0]].candidates(lines, relpath)
+		if not sites:
+			continue
+		if contexts is None:
+			contexts = line_contexts(lines)
+		per_label = {}
+		for site in sites:
+			if not isinstance(site, int) or site >= len(contexts):
+				continue
+			for label in contexts[site]:
+				per_label.setdefault(label, []).append(site)
+		keep = {}
+		for label, found in per_label.items():
+			if label in ALWAYS_ALL.get(name, ()):
+				keep[label] = (len(found), found)
+			else:
+				keep[label] = (len(found), [found[0], found[len(found) // 2]] if len(found) > 1 else found)
+		out[name] = keep
+	return relpath, out
+
+
+def plan_stratified(ctx, catalogue, per_file):
+	"""At least one case (thorough: three) for every (family group x context class) that exists in the tree; all sites of the
+	ALWAYS_ALL classes. Records the class counts for the evidence."""
+	rng = ctx.rng
+	groups = dict(stratification_groups(catalogue))
+	pools = {}
+	counts = {}
+	for relpath in sorted(per_file):
+		for name, labels in per_file[relpath].items():
+			for label, (count, sites) in labels.items():
+				counts.setdefault(name, {}).setdefault(label, 0)
+				counts[name][label] += count
+				pools.setdefault((name, label), []).extend((relpath, site) for site in sites)
+	cases = []
+	exercised = {}
+	for (name, label), pool in sorted(pools.items()):
+		if label in ALWAYS_ALL.get(name, ()):
+			chosen = pool
+		else:
+			chosen = rng.sample(pool, min(len(pool), ctx.scale(1, 3)))
+		for relpath, site in chosen:
+			family = rng.choice(groups[name])
+			cases.append({
+				'family': family, 'relpath': relpath, 'site': site, 'seed': rng.randrange(1 << 30), 'name': catalogue[family].name, 'context': label, 'group': name})
+		exercised.setdefault(name, {})[label] = len(chosen)
+	ctx.c19_contexts = {
+		name: {label: {'sites_in_tree': counts[name][label], 'cases': exercised.get(name, {}).get(label, 0)} for label in sorted(counts[name])}
+		for name in sorted(counts)}
+	ctx.count('context:classes-present-in-the-tree', sum(len(labels) for labels in counts.values()))
+	ctx.count('context:classes-exercised', sum(1 for labels in exercised.values() for number in labels.values() if number))
+	ctx.count('context:stratified-cases', len(cases))
+	return cases
+
+
 # endregion
 
 # region (4) correspondence with the Lean models
@@ -1178,6 +1346,8 @@ def report_result(ctx, result, catalogue, entries, model_requests):
 		'family': case['name'], 'file': case['relpath'], 'line': case['site'] + 1, 'expected': result['expectation'], 'reported': result['reports'][:3]}
 		if len(ctx.samples) < 10 else None)
 	ctx.count('seeded:' + family.name.split(':')[0])
+	if case.get('context'):
+		ctx.count('seeded:stratified:' + case['context'])
 	if result.get('discarded'):
 		ctx.count('seeded:discarded:' + result['discarded'])
 	if result.get('leak_checked'):
@@ -1226,7 +1396,14 @@ def run(ctx):
 			for relpath in files:
 				if relpath not in sites_by_file and (relpath.startswith('src/catapult/utils/') or relpath.startswith('tests/catapult/')) and rng.random() < 0.15:
 					sites_by_file.update(dict([file_sites_local(relpath, catalogue)]))
-			cases = plan_cases(ctx, catalogue, sites_by_file, ctx.scale(2000, 30000))
+			per_file = dict(pool.imap_unordered(context_sites, files, chunksize=16))
+			stratified = plan_stratified(ctx, catalogue, per_file)
+			cases = plan_cases(ctx, catalogue, sites_by_file, max(600, ctx.scale(2000, 30000) - len(stratified)))
+			cases = stratified + cases
+			rng.shuffle(cases)
+			for number, case in enumerate(cases):
+				case['model'] = 0 == number % 4 or case.get('context') in ('prev:backslash', 'in:macro')
+				case['relint'] = 0 == number % 6
 			ctx.count('seeded:families', len(catalogue))
 			ctx.count('seeded:files-with-sites', len(sites_by_file))
 			chunks = [cases[start:start + 12] for start in range(0, len(cases), 12)]
@@ -1274,14 +1451,15 @@ def run(ctx):
 		mark = time.time()
 		# Lean line-rule models against the real validators, on seeded files and on conforming files
 		if ctx.driver:
-			for case, modelled in model_requests[:ctx.scale(150, 1500)]:
+			model_requests.sort(key=lambda item: 0 if item[0].get('context') in ('prev:backslash', 'in:macro') else 1)  # those first (stable)
+			for case, modelled in model_requests[:ctx.scale(120, 1500)]:
 				answer = ctx.driver.ask(f'lint {1 if modelled["header"] else 0} {sx(modelled["text"])}')
 				ctx.count('model-lint:seeded-files')
 				if model_view(answer, entries) != modelled_view(modelled['reports'], entries):
 					ctx.fail(
 						'corr', f'{case["name"]} in {case["relpath"]}: modelled reports differ: model {model_view(answer, entries)[:6]}, '
 						f'implementation {modelled_view(modelled["reports"], entries)[:6]}', {'kind': 'seeded', 'case': case, 'model': answer[:300]})
-			for relpath in rng.sample(files, ctx.scale(40, 300)):
+			for relpath in rng.sample(files, ctx.scale(30, 300)):
 				with open(os.path.join(base, relpath), 'rt', encoding='utf8') as infile:
 					text = infile.read()
 				if not text.isascii():
@@ -1346,6 +1524,7 @@ def extra_evidence(ctx):
 	return {
 		'regex_table': {'entries': len(entries), 'typo_entries': typo_count, 'anchor_free': sum(1 for entry in entries if not any(entry['features'].values()))},
 		'constants': constants,
+		'context_classes': getattr(ctx, 'c19_contexts', {}),
 	}
 
 
@@ -1357,7 +1536,8 @@ MANIFEST = {
 		'group/back-reference (m_iff_matches, search_iff_lang); a witness inserted at ANY position of ANY line fires an anchor-free rule '
 		'(search_context) and every table entry has a kernel-checked witness (typo_witnesses, validator_witnesses, re-generated from '
 		'validation.py on every run); seeded-edit theorems for the modelled line rules (trailing whitespace, spaces at start, tabs in empty '
-		'line, tab inside, line length with tabs as 4 incl. the boundary, consecutive / near-end blank lines, mistyped region comment, typo '
+		'line, tab inside, line length with tabs as 4 incl. the boundary, consecutive blank lines at every position incl. the lines of and below a multi-line directive (the multiline flag of parse_file is '
+		'modelled; parseFileBlank_ignores_multiline), near-end blank lines, mistyped region comment, typo '
 		'insertion, empty line after #pragma once) with undo theorems; exit_is_count and shell_status_wraps; DepsChecker: deps_closure_spec (process_rules = transitive closure of the '
 		'expanded rules), allowed_iff, allowed_needs_full_source_match / extended_source_gets_nothing_from (anchoring), '
 		'shipped_deps_config_closes. Executed on the real code: the CI command over the whole tree (42 suites silent, exit 0) and ~2000 (quick) seeded '
